@@ -298,3 +298,51 @@ func Mutate(r *rand.Rand, v any, c *Cfg) any {
 	}
 	return c.Leaf(r)
 }
+
+// Table returns table-like data for aligned writers: 2-5 rows that are all objects over the same few
+// keys or all lists, some cells missing, and the cells of one column of mixed kinds (a leaf in one row, a
+// small list or a small object in another).
+func (c *Cfg) Table(r *rand.Rand) any {
+	cell := func() any {
+		switch r.Intn(6) {
+		case 0:
+			l := make([]any, 1+r.Intn(3))
+			for i := range l {
+				l[i] = c.Leaf(r)
+			}
+			return l
+		case 1:
+			m := map[string]any{}
+			for _, k := range []string{"x", "yy", "z"}[:1+r.Intn(3)] {
+				m[k] = c.Leaf(r)
+			}
+			return m
+		case 2:
+			return []any{}
+		default:
+			return c.Leaf(r)
+		}
+	}
+	rows := []any{}
+	cols := []string{"a", "bb", "ccc", "d"}
+	asLists := r.Intn(2) == 0
+	n := 2 + r.Intn(4)
+	for k := 0; k < n; k++ {
+		if asLists {
+			row := make([]any, r.Intn(len(cols)+1))
+			for i := range row {
+				row[i] = cell()
+			}
+			rows = append(rows, row)
+		} else {
+			row := map[string]any{}
+			for _, col := range cols {
+				if r.Intn(4) != 0 {
+					row[col] = cell()
+				}
+			}
+			rows = append(rows, row)
+		}
+	}
+	return rows
+}
